@@ -41,3 +41,40 @@ pub fn c01_space(tier: Tier, seed: u64, cond: bool, e_quick: usize, e_thorough: 
 pub fn texts_c01(len: usize) -> Vec<String> {
     gen::texts(&gen::ALPHA_C01, len)
 }
+
+/// The unrestricted (C05) space: all features, no scoping rules - self-referential and forward
+/// backreferences, empty loops, \K and \G anywhere, conditionals, multi-byte literals.
+pub fn unrestricted(tier: Tier, seed: u64, e_quick: usize, e_thorough: usize, rand_quick: usize, rand_thorough: usize) -> Space {
+    use crate::ast::{Node::*, A};
+    let atoms = vec![
+        Node::lit("a"),
+        Node::lit("é"),
+        Node::lit("😀"),
+        Any(false),
+        Node::class("[^a]"),
+        Assert(A::StartText),
+        Assert(A::EndText),
+        Assert(A::WordB),
+        Backref(1),
+        Backref(2),
+        KeepOut,
+        Empty,
+    ];
+    let mut g = Gen::with_atoms(atoms, gen::reps_c01(), true, true);
+    g.contg = true;
+    let en = tier.pick(e_quick, e_thorough);
+    let mut patterns = g.upto(en);
+    let n_e = patterns.len();
+    let fillers = g.upto(2);
+    let prods = gen::products(&fillers);
+    let n_p = prods.len();
+    patterns.extend(prods);
+    let rnd = gen::random_patterns(seed ^ 0x05, tier.pick(rand_quick, rand_thorough), true, 5, 12);
+    let n_r = rnd.len();
+    patterns.extend(rnd);
+    Space { patterns, describe: format!("unrestricted grammar: all {} trees of <= {} nodes over atoms a é 😀 . [^a] ^ $ \\b \\1 \\2 \\K \\G (?(1)) ε with groups, atomic groups, 4 look-arounds, 12 quantifier forms, concat, alt, both conditional forms; {} context products; {} seeded random trees of 5-12 nodes", n_e, en, n_p, n_r) }
+}
+
+pub fn texts_mb(len: usize) -> Vec<String> {
+    gen::texts(&gen::ALPHA_MB, len)
+}
